@@ -127,7 +127,6 @@ def mutants(args):
                                     "--mutant-mode"], cwd=O.VERIF, capture_output=True, text=True)
                 if p.returncode == 1 and "VIOLATION property=" in p.stdout:
                     killed_by.append(prop)
-                    break
                 if p.returncode == 2:
                     report.setdefault(name, {})["harness"] = p.stdout[-300:]
             status = "killed" if killed_by else "SURVIVED"
